@@ -242,3 +242,79 @@ def finish(pid, level, tier, acc, t0, rule, assumptions, extra=None, exhaustive=
           f'nontrivial={cov["distinct_nontrivial"]} outcomes={cov["distinct_outcomes"]} '
           f'new_violations={len(seen_keys)} known={len(known_hit)} wall={ev["wall_s"]}s')
     return 1 if new else 0
+
+
+# ---------------------------------------------------------------------------------------------------------------
+# fresh-process map: every task runs in its own fork of the *calling* process (used where a pristine library state
+# per task matters: schedule and history explorers).  No multiprocessing.Pool (maxtasksperchild=1 proved unreliable).
+# ---------------------------------------------------------------------------------------------------------------
+
+def fresh_map(func, tasks, nproc=None, timeout=600):
+    """yields (index, result) in completion order; result is whatever func returned (must pickle).
+    A task whose process dies or times out yields (index, RuntimeError(...))."""
+    import pickle
+    import select
+    import signal
+    tasks = list(tasks)
+    nproc = nproc or NPROC
+    running = {}   # read fd -> (pid, index, start, buffer)
+    nxt = 0
+    while nxt < len(tasks) or running:
+        while nxt < len(tasks) and len(running) < nproc:
+            r, w = os.pipe()
+            sys.stdout.flush()
+            sys.stderr.flush()
+            pid = os.fork()
+            if pid == 0:
+                code = 0
+                try:
+                    os.close(r)
+                    for fd in list(running):
+                        os.close(fd)
+                    try:
+                        out = ('ok', func(tasks[nxt]))
+                    except BaseException as e:  # noqa
+                        import traceback
+                        out = ('err', traceback.format_exc())
+                    data = pickle.dumps(out)
+                    view = memoryview(data)
+                    while view:
+                        n = os.write(w, view[:1 << 16])
+                        view = view[n:]
+                except BaseException:
+                    code = 1
+                finally:
+                    os._exit(code)
+            os.close(w)
+            running[r] = [pid, nxt, time.time(), []]
+            nxt += 1
+        rd, _, _ = select.select(list(running), [], [], 1.0)
+        now = time.time()
+        for fd in rd:
+            chunk = os.read(fd, 1 << 20)
+            if chunk:
+                running[fd][3].append(chunk)
+                continue
+            pid, idx, st, buf = running.pop(fd)
+            os.close(fd)
+            os.waitpid(pid, 0)
+            try:
+                kind, val = pickle.loads(b''.join(buf))
+            except Exception:
+                yield idx, RuntimeError('worker process died without a result')
+                continue
+            if kind == 'err':
+                yield idx, RuntimeError('worker raised:\n' + val)
+            else:
+                yield idx, val
+        for fd in list(running):
+            pid, idx, st, buf = running[fd]
+            if now - st > timeout:
+                try:
+                    os.kill(pid, signal.SIGKILL)
+                except ProcessLookupError:
+                    pass
+                os.waitpid(pid, 0)
+                os.close(fd)
+                del running[fd]
+                yield idx, RuntimeError(f'worker timed out after {timeout}s')
